@@ -46,7 +46,14 @@ CommonLattice ==
     \cup {RespCase("CredentialManagement", v, 7609, "common-response-lattice") : v \in OneAtATime("CmResp", F0, FALSE)}
     \cup {RespCase("ClientPin", v, 7609, "common-response-lattice") : v \in OneAtATime("CpResp", F0, FALSE)}
 
-MC_Cases == CommonRequests \cup LbWindows \cup CommonResponses \cup CommonTypes \cup CommonLattice
+\* the capacity of the authenticator data is the same in every configuration
+CommonAuthData ==
+    {[op |-> "authdata", tag |-> "common-authdata-capacity",
+      in |-> [flavour |-> "mc", rpIdHash |-> Pattern(100, 32), flags |-> 65, count |-> BN(5),
+              acd |-> <<[aaguid |-> Pattern(102, 16), idLen |-> n, idSeed |-> 103, pk |-> Pattern(101, k)]>>, ext |-> GNone]] :
+        k \in {77, 300, 367}, n \in {200, 244, 245, 254, 255, 256, 270, 290, 544, 545, 560}}
+
+MC_Cases == CommonRequests \cup LbWindows \cup CommonResponses \cup CommonTypes \cup CommonLattice \cup CommonAuthData
 
 \* Strictness: a GetInfo message carrying a key that does not exist in configuration F must be
 \* refused under F (the integer-keyed maps are strict), and a key that exists must carry its type.
